@@ -66,7 +66,7 @@ def replay_transitions(trans, make_session, o: Outcome, chained=False):
         pre = S.pheap()
         out = S.apply(call)
         post = S.pheap()
-        ev = {'pre': intern(pre), 'post': intern(post), 'call': call, 'out': out, 'eq': S.eq_matrix(),
+        ev = {'pre': intern(pre), 'post': intern(post), 'call': call, 'out': out, 'eq': S.eq_matrix(), 'ty': S.types(),
               'sharers': sorted(S.sharers), 'path': path + [call], 'model_out': t['act']['out']}
         events.append(ev)
         if chained:
@@ -79,7 +79,7 @@ def replay_transitions(trans, make_session, o: Outcome, chained=False):
 
 
 def judge(work, module, states, events, o: Outcome, part, machine='graph'):
-    cases = [{k: e[k] for k in ('pre', 'post', 'call', 'out', 'eq', 'sharers') + (('nodrift',) if 'nodrift' in e else ())} for e in events]
+    cases = [{k: e[k] for k in ('pre', 'post', 'call', 'out', 'eq', 'sharers') + (('nodrift',) if 'nodrift' in e else ()) + (('ty',) if 'ty' in e else ())} for e in events]
     verdicts, st, tr, _ = judge_batch(work, module, cases, per_shard_min=2000, shared={'states.json': states},
                                       heap='4g')
     o.states += st
